@@ -371,7 +371,11 @@ class _NumericOperationsImpl(OperationsBlock):
                         opx.const([], dtype=dtypes.int64),
                     )
                 )
-        return _via_i64_f64(lambda x: opx.arg_max(x, axis=axis, keepdims=keepdims), [x])
+        return _via_i64_f64(
+            lambda x: opx.arg_max(x, axis=axis, keepdims=keepdims),
+            [x],
+            cast_return=False,
+        )
 
     @validate_core
     def argmin(self, x, axis=None, keepdims=False):
@@ -391,7 +395,11 @@ class _NumericOperationsImpl(OperationsBlock):
                         opx.const([], dtype=dtypes.int64),
                     )
                 )
-        return _via_i64_f64(lambda x: opx.arg_min(x, axis=axis, keepdims=keepdims), [x])
+        return _via_i64_f64(
+            lambda x: opx.arg_min(x, axis=axis, keepdims=keepdims),
+            [x],
+            cast_return=False,
+        )
 
     @validate_core
     def nonzero(self, x) -> tuple[Array, ...]:
@@ -538,7 +546,9 @@ class _NumericOperationsImpl(OperationsBlock):
 
         _len = ndx.asarray(nda.shape(x)[axis : axis + 1], dtype=dtypes.int64)._core()
         return _via_i64_f64(
-            lambda x: opx.top_k(x, _len, largest=descending, axis=axis)[1], [x]
+            lambda x: opx.top_k(x, _len, largest=descending, axis=axis)[1],
+            [x],
+            cast_return=False,
         )
 
     @validate_core
